@@ -5,6 +5,7 @@
 cd "$(dirname "$0")/.."
 for d in seeded/C*; do
   s=$(basename $d); c=$(echo $s | cut -c1-3)
+  if python3 -c "import json,sys; sys.exit(0 if json.load(open('$d/meta.json')).get('obsolete') else 1)" 2>/dev/null; then echo "seed=$s obsolete (see meta.json)"; continue; fi
   by=$(python3 -c "import json,sys; print(json.load(open('$d/meta.json')).get('detection',{}).get('caught_by_check','$c'))" 2>/dev/null || echo $c)
   tools/try_seed.sh $s $by ${1:-quick} 2>&1 | head -2 | cut -c1-260
 done
